@@ -577,16 +577,30 @@ pub fn run(spec: &RunSpec, ty: &dyn TyObj, want_log: bool) -> RunResult {
                         }
                     }
                     // interior: every sampled word of [a_x, e_x] must be accepted at once and map to x
+                    // Deterministically the first and last four words of the block, then 12 seeded interior words each
+                    // together with its successor: a sampler whose consecutive words map to different values (low-bit
+                    // or modulo mappings, for which bisection finds meaningless "blocks") cannot pass a single pair.
                     let size_m1 = refint::sub(&e_x, &a_x);
-                    for j in 0..14 {
-                        let off = match j {
-                            0 => zero.clone(),
-                            1 => size_m1.clone(),
-                            _ => crate::gen::below_incl(&mut sp, &size_m1),
-                        };
-                        let wv = refint::add(&a_x, &off);
+                    let mut offs: Vec<Vec<u8>> = Vec::new();
+                    for t in 0..4u64 {
+                        let tv = refint::from_u64(t, width);
+                        if refint::ucmp(&tv, &size_m1) != O::Greater {
+                            offs.push(tv.clone());
+                            offs.push(refint::sub(&size_m1, &tv));
+                        }
+                    }
+                    for _ in 0..12 {
+                        let o = crate::gen::below_incl(&mut sp, &size_m1);
+                        if refint::ucmp(&o, &size_m1) == O::Less {
+                            offs.push(refint::add_small(&o, 1));
+                        }
+                        offs.push(o);
+                    }
+                    for off in offs.iter() {
+                        let wv = refint::add(&a_x, off);
                         if probe(&wv, &mut viol, &mut aborted).as_ref() != Some(&x) {
                             ok = false;
+                            break;
                         }
                     }
                     if aborted {
@@ -618,7 +632,20 @@ pub fn run(spec: &RunSpec, ty: &dyn TyObj, want_log: bool) -> RunResult {
                 bump(&mut counters, "span_probe_configs_compared");
                 let mn = blocks.iter().min_by(|a, b| refint::ucmp(&a.4, &b.4)).unwrap();
                 let mx = blocks.iter().max_by(|a, b| refint::ucmp(&a.4, &b.4)).unwrap();
-                if mn.4 != mx.4 {
+                // Second safety net against a misread structure: in a threshold sampler over contiguous blocks a wrong
+                // zone changes block sizes by one word (at most a factor two for tiny blocks); sizes that differ by
+                // more than that mean the "blocks" found by bisection are not fibres at all — nothing is concluded.
+                let twice_min = {
+                    let mut t = mn.4.clone();
+                    t.push(0);
+                    refint::shl1(&mut t);
+                    t
+                };
+                let mut mx_ext = mx.4.clone();
+                mx_ext.push(0);
+                if mn.4 != mx.4 && refint::ucmp(&mx_ext, &twice_min) == O::Greater {
+                    bump(&mut counters, "span_probe_sizes_implausible");
+                } else if mn.4 != mx.4 {
                     viol.push(Violation {
                         class: "fibre_spans_differ",
                         op: oi,
